@@ -1,9 +1,252 @@
-import SynthVerif.Model.Adsr
-import SynthVerif.Model.Lfo
-import SynthVerif.Model.Quantizer
-import SynthVerif.Model.Midi
-import SynthVerif.Model.Glide
-import SynthVerif.Model.Ribbon
+import SynthVerif.Props.MidiLemmas
+/-!
+# C06 — MIDI byte-stream framing: channel isolation, running status, real-time bytes
+
+`Dec` is a reference decoder written from the MIDI 1.0 framing rules (running status, a status byte aborts a
+partial message, system-common/exclusive bytes 0xF0..0xF7 cancel running status, system-exclusive payload is
+therefore ignored, system real-time bytes 0xF8..0xFF are transparent).  It only reports the four message kinds
+the receiver supports.
+* `parser_refines_decoder`: after every byte the modelled `midi-convert` parser and the reference decoder are
+  coupled, and the supported message they emit for that byte is the same.
+* `receiver_follows_reference`: hence after every byte sequence every observable of the receiver equals the one
+  obtained by applying the supported messages of the reference decoding.
+* `realtime_transparent`, `other_channel_inert`, `unsupported_inert`: the corollaries named in the property.
+* `payload_bounds`: every value handed to the `midi-types` conversions satisfies their debug assertions, so
+  `parse` cannot panic on any byte.
+-/
 namespace C06
-theorem placeholder_to_be_replaced : True := trivial
+
+/-- the message kinds the receiver acts on -/
+def supported : MidiMsg → Bool
+  | .noteOff .. | .noteOn .. | .controlChange .. | .pitchBend .. => true
+  | _ => false
+
+def keep (o : Option MidiMsg) : Option MidiMsg :=
+  match o with
+  | some x => if supported x then some x else none
+  | none => none
+
+/-- reference decoder state: running status (0 = none) and the data bytes collected so far -/
+structure Dec where
+  status : Nat := 0
+  data : List Nat := []
+deriving Repr, DecidableEq
+
+def Dec.step (d : Dec) (b : Nat) : Dec × Option MidiMsg :=
+  if b ≥ 0xF8 then (d, none)
+  else if b ≥ 0xF0 then ({ status := 0, data := [] }, none)
+  else if b ≥ 0x80 then ({ status := b, data := [] }, none)
+  else if d.status == 0 then (d, none)
+  else
+    let kind := d.status / 16
+    let ch := d.status % 16
+    if kind == 0xC || kind == 0xD then ({ d with data := [] }, none)
+    else match d.data with
+      | [] => ({ d with data := [b] }, none)
+      | x :: _ =>
+        ({ d with data := [] },
+          if kind == 0x8 then some (.noteOff ch x b)
+          else if kind == 0x9 then some (.noteOn ch x b)
+          else if kind == 0xB then some (.controlChange ch x b)
+          else if kind == 0xE then some (.pitchBend ch b x)
+          else none)
+
+/-- coupling between the parser state of `midi-convert` and the reference decoder -/
+def Cpl : ParserState → Dec → Prop
+  | .idle, d => d.status = 0
+  | .quarterFrameRecvd, d | .songPositionRecvd, d | .songPositionLsbRecvd _, d | .songSelectRecvd, d => d.status = 0
+  | .noteOffRecvd ch, d => ch < 16 ∧ d = ⟨0x80 + ch, []⟩
+  | .noteOffNoteRecvd ch n, d => ch < 16 ∧ d = ⟨0x80 + ch, [n]⟩
+  | .noteOnRecvd ch, d => ch < 16 ∧ d = ⟨0x90 + ch, []⟩
+  | .noteOnNoteRecvd ch n, d => ch < 16 ∧ d = ⟨0x90 + ch, [n]⟩
+  | .keyPressureRecvd ch, d => ch < 16 ∧ d = ⟨0xA0 + ch, []⟩
+  | .keyPressureNoteRecvd ch n, d => ch < 16 ∧ d = ⟨0xA0 + ch, [n]⟩
+  | .controlChangeRecvd ch, d => ch < 16 ∧ d = ⟨0xB0 + ch, []⟩
+  | .controlChangeControlRecvd ch n, d => ch < 16 ∧ d = ⟨0xB0 + ch, [n]⟩
+  | .programChangeRecvd ch, d => ch < 16 ∧ d = ⟨0xC0 + ch, []⟩
+  | .channelPressureRecvd ch, d => ch < 16 ∧ d = ⟨0xD0 + ch, []⟩
+  | .pitchBendRecvd ch, d => ch < 16 ∧ d = ⟨0xE0 + ch, []⟩
+  | .pitchBendLsbRecvd ch n, d => ch < 16 ∧ d = ⟨0xE0 + ch, [n]⟩
+
+theorem cpl_init : Cpl .idle {} := rfl
+
+private theorem sys_cases (b : Nat) (h1 : 0xF0 ≤ b) (h2 : b < 256) :
+    b = 0xF0 ∨ b = 0xF1 ∨ b = 0xF2 ∨ b = 0xF3 ∨ b = 0xF4 ∨ b = 0xF5 ∨ b = 0xF6 ∨ b = 0xF7 ∨
+    b = 0xF8 ∨ b = 0xF9 ∨ b = 0xFA ∨ b = 0xFB ∨ b = 0xFC ∨ b = 0xFD ∨ b = 0xFE ∨ b = 0xFF := by omega
+
+/-- status and system bytes -/
+private theorem step_status {st : ParserState} {d : Dec} (h : Cpl st d) (b : Nat) (hb : b < 256) (h80 : 0x80 ≤ b) :
+    Cpl (parserStep st b).1 (d.step b).1 ∧ keep (parserStep st b).2 = (d.step b).2 := by
+  by_cases hF0 : 0xF0 ≤ b
+  · rcases sys_cases b hF0 hb with h | h | h | h | h | h | h | h | h | h | h | h | h | h | h | h <;> subst h <;>
+      (refine ⟨?_, ?_⟩ <;> first | exact h | rfl | (simp [parserStep, Dec.step, Cpl]) )
+  · have hk : b / 16 = 8 ∨ b / 16 = 9 ∨ b / 16 = 10 ∨ b / 16 = 11 ∨ b / 16 = 12 ∨ b / 16 = 13 ∨ b / 16 = 14 := by omega
+    have hm : b % 16 < 16 := Nat.mod_lt _ (by decide)
+    have hge : ¬ (b ≥ 0xF8) := by omega
+    have hge2 : ¬ (b ≥ 0xF0) := by omega
+    have hdec : d.step b = ({ status := b, data := [] }, none) := by
+      simp only [Dec.step, hge, hge2, h80, ↓reduceIte]
+    have hlt : ¬ (b ≥ 240) := by omega
+    rcases hk with hk | hk | hk | hk | hk | hk | hk <;>
+      (simp only [parserStep, h80, hlt, hk, hdec, ↓reduceIte, keep, Cpl]
+       refine ⟨⟨hm, ?_⟩, trivial⟩
+       congr 1; omega)
+
+private theorem nib (c : Nat) (h : c < 16) :
+    (0x80 + c) / 16 = 8 ∧ (0x90 + c) / 16 = 9 ∧ (0xA0 + c) / 16 = 10 ∧ (0xB0 + c) / 16 = 11 ∧
+    (0xC0 + c) / 16 = 12 ∧ (0xD0 + c) / 16 = 13 ∧ (0xE0 + c) / 16 = 14 ∧
+    (0x80 + c) % 16 = c ∧ (0x90 + c) % 16 = c ∧ (0xA0 + c) % 16 = c ∧ (0xB0 + c) % 16 = c ∧
+    (0xC0 + c) % 16 = c ∧ (0xD0 + c) % 16 = c ∧ (0xE0 + c) % 16 = c := by omega
+
+/-- data bytes -/
+private theorem step_data {st : ParserState} {d : Dec} (h : Cpl st d) (b : Nat) (h80 : b < 0x80) :
+    Cpl (parserStep st b).1 (d.step b).1 ∧ keep (parserStep st b).2 = (d.step b).2 := by
+  have n1 : ¬ (b ≥ 0x80) := by omega
+  have n2 : ¬ (b ≥ 0xF8) := by omega
+  have n3 : ¬ (b ≥ 0xF0) := by omega
+  cases st <;> simp only [Cpl] at h
+  case idle | quarterFrameRecvd | songPositionRecvd | songPositionLsbRecvd | songSelectRecvd =>
+    simp [parserStep, Dec.step, n1, n2, n3, h, keep, supported, Cpl]
+  all_goals
+    obtain ⟨hc, hd⟩ := h
+    subst hd
+    obtain ⟨e1, e2, e3, e4, e5, e6, e7, m1, m2, m3, m4, m5, m6, m7⟩ := nib _ hc
+    simp [parserStep, Dec.step, n1, n2, n3, keep, supported, Cpl, hc, e1, e2, e3, e4, e5, e6, e7,
+      m1, m2, m3, m4, m5, m6, m7]
+
+/-- **parser refinement**, one byte -/
+theorem parser_refines_decoder {st : ParserState} {d : Dec} (h : Cpl st d) (b : Nat) (hb : b < 256) :
+    Cpl (parserStep st b).1 (d.step b).1 ∧ keep (parserStep st b).2 = (d.step b).2 := by
+  by_cases h80 : b < 0x80
+  · exact step_data h b h80
+  · exact step_status h b hb (by omega)
+
+/-- unsupported messages never change the receiver -/
+theorem unsupported_inert (m : Midi) (x : MidiMsg) (h : supported x = false) : m.handle x = m := by
+  cases x <;> simp_all [supported, Midi.handle]
+
+/-- messages for another channel never change the receiver -/
+theorem other_channel_inert (m : Midi) (c a b : Nat) (h : c ≠ m.channel) :
+    m.handle (.noteOn c a b) = m ∧ m.handle (.noteOff c a b) = m ∧
+    m.handle (.controlChange c a b) = m ∧ m.handle (.pitchBend c a b) = m := by
+  have : (c == m.channel) = false := by simp [h]
+  simp [Midi.handle, this]
+
+/-- the reference receiver: the reference decoder followed by the receiver's message handling -/
+def refParse (p : Midi × Dec) (b : Nat) : Midi × Dec :=
+  let (d', msg) := p.2.step b
+  (match msg with | some x => p.1.handle x | none => p.1, d')
+
+/-- everything observable through the public getters and the edge polls (the parser state is not) -/
+def obs (m : Midi) : Midi := { m with parser := .idle }
+
+private theorem handle_parser (m : Midi) (x : MidiMsg) : (m.handle x).parser = m.parser := by
+  cases x <;> simp [Midi.handle] <;> (repeat' split) <;> simp [Midi.noteOn, Midi.noteOff, Midi.controlChange]
+
+private theorem obs_handle (m : Midi) (p : ParserState) (x : MidiMsg) :
+    obs ({ m with parser := p }.handle x) = obs (m.handle x) := by
+  cases x <;> simp [Midi.handle, obs] <;> (repeat' split) <;> simp [Midi.noteOn, Midi.noteOff, Midi.controlChange,
+    Midi.heldAfterOn, Midi.heldAfterOff]
+
+private theorem obs_handle' (m : Midi) (x : MidiMsg) : obs (m.handle x) = obs ((obs m).handle x) := by
+  have e : m = { obs m with parser := m.parser } := by cases m; rfl
+  have := obs_handle (obs m) m.parser x
+  rw [← e] at this
+  exact this
+
+private theorem handle_congr_obs {m m' : Midi} (h : obs m = obs m') (x : MidiMsg) : obs (m.handle x) = obs (m'.handle x) := by
+  rw [obs_handle' m, obs_handle' m', h]
+
+private theorem parse_step {m : Midi} {r : Midi × Dec} (ho : obs m = obs r.1) (hc : Cpl m.parser r.2)
+    (b : Nat) (hb : b < 256) :
+    obs (m.parse b) = obs (refParse r b).1 ∧ Cpl (m.parse b).parser (refParse r b).2 := by
+  obtain ⟨hc', hk⟩ := parser_refines_decoder hc b hb
+  simp only [Midi.parse, refParse]
+  rw [← hk]
+  cases hp : (parserStep m.parser b).2 with
+  | none => simpa [keep, obs, hp] using ⟨by simpa [obs] using ho, hc'⟩
+  | some x =>
+    by_cases hs : supported x
+    · simp only [keep, hs, ↓reduceIte, hp]
+      refine ⟨?_, by rw [handle_parser]; exact hc'⟩
+      rw [obs_handle]; exact handle_congr_obs ho x
+    · have hs' : supported x = false := by simpa using hs
+      simp only [keep, hs', Bool.false_eq_true, ↓reduceIte, hp]
+      rw [unsupported_inert _ x hs']
+      exact ⟨by simpa [obs] using ho, hc'⟩
+
+/-- **C06, main statement.** After every byte sequence (bytes 0..=255) all observables of the receiver equal those
+of the reference receiver (MIDI 1.0 decoding, then only the supported messages). -/
+theorem receiver_follows_reference (ch : Nat) (bs : List Nat) (hb : ∀ b ∈ bs, b < 256) :
+    obs (bs.foldl Midi.parse (Midi.new ch)) = obs (bs.foldl refParse (Midi.new ch, {})).1 := by
+  suffices h : ∀ (m : Midi) (r : Midi × Dec), obs m = obs r.1 → Cpl m.parser r.2 →
+      obs (bs.foldl Midi.parse m) = obs (bs.foldl refParse r).1 from
+    h _ _ rfl (by simp [Midi.new, Cpl])
+  induction bs with
+  | nil => intro m r ho _; simpa using ho
+  | cons b bs ih =>
+    intro m r ho hc
+    obtain ⟨h1, h2⟩ := parse_step ho hc b (hb b (by simp))
+    simp only [List.foldl_cons]
+    exact ih (fun x hx => hb x (by simp [hx])) _ _ h1 h2
+
+/-- system real-time bytes are invisible to the reference receiver wherever they are inserted -/
+theorem ref_realtime (r : Midi × Dec) (b : Nat) (h : 0xF8 ≤ b) : refParse r b = r := by
+  simp [refParse, Dec.step, h]
+
+/-- **real-time transparency**: inserting a system real-time byte anywhere in a stream, even between the bytes of
+a message, changes no observable at any later point. -/
+theorem realtime_transparent (ch : Nat) (pre post : List Nat) (rt : Nat) (hrt : 0xF8 ≤ rt) (hrt' : rt < 256)
+    (h1 : ∀ b ∈ pre, b < 256) (h2 : ∀ b ∈ post, b < 256) :
+    obs ((pre ++ rt :: post).foldl Midi.parse (Midi.new ch)) = obs ((pre ++ post).foldl Midi.parse (Midi.new ch)) := by
+  rw [receiver_follows_reference ch (pre ++ rt :: post) (by
+        intro b hb; simp at hb; rcases hb with hb | hb | hb
+        · exact h1 b hb
+        · omega
+        · exact h2 b hb),
+      receiver_follows_reference ch (pre ++ post) (by
+        intro b hb; simp at hb; rcases hb with hb | hb
+        · exact h1 b hb
+        · exact h2 b hb)]
+  simp [List.foldl_append, ref_realtime _ rt hrt]
+
+/-- every value the parser passes to a `midi-types` constructor satisfies that constructor's debug assertion
+(`<= 127` for data, `<= 15` for channels): `parse` cannot panic -/
+def msgBounded : MidiMsg → Prop
+  | .noteOff c n v | .noteOn c n v | .keyPressure c n v | .controlChange c n v | .pitchBend c n v => c < 16 ∧ n < 128 ∧ v < 128
+  | .programChange c p | .channelPressure c p => c < 16 ∧ p < 128
+  | .quarterFrame v | .songSelect v => v < 128
+  | .songPosition a b => a < 128 ∧ b < 128
+  | _ => True
+
+def stateBounded : ParserState → Prop
+  | .noteOnRecvd c | .noteOffRecvd c | .keyPressureRecvd c | .controlChangeRecvd c | .programChangeRecvd c
+  | .channelPressureRecvd c | .pitchBendRecvd c => c < 16
+  | .noteOnNoteRecvd c n | .noteOffNoteRecvd c n | .keyPressureNoteRecvd c n | .controlChangeControlRecvd c n
+  | .pitchBendLsbRecvd c n => c < 16 ∧ n < 128
+  | .songPositionLsbRecvd n => n < 128
+  | _ => True
+
+theorem payload_bounds (st : ParserState) (h : stateBounded st) (b : Nat) (hb : b < 256) :
+    stateBounded (parserStep st b).1 ∧ ∀ x, (parserStep st b).2 = some x → msgBounded x := by
+  by_cases h80 : b < 0x80
+  · have n1 : ¬ (b ≥ 0x80) := by omega
+    cases st <;> simp only [parserStep, n1, ↓reduceIte, stateBounded] at h ⊢ <;>
+      (refine ⟨?_, ?_⟩ <;> first | trivial | omega | (intro x hx; cases hx; simp only [msgBounded]; omega) | (intro x hx; cases hx))
+  · by_cases hF0 : 0xF0 ≤ b
+    · rcases sys_cases b hF0 hb with e | e | e | e | e | e | e | e | e | e | e | e | e | e | e | e <;> subst e <;>
+        simp_all [parserStep, stateBounded, msgBounded]
+    · have hk : b / 16 = 8 ∨ b / 16 = 9 ∨ b / 16 = 10 ∨ b / 16 = 11 ∨ b / 16 = 12 ∨ b / 16 = 13 ∨ b / 16 = 14 := by omega
+      have hm : b % 16 < 16 := Nat.mod_lt _ (by decide)
+      have h1 : b ≥ 0x80 := by omega
+      have h2 : ¬ b ≥ 240 := by omega
+      rcases hk with hk | hk | hk | hk | hk | hk | hk <;>
+        (refine ⟨?_, ?_⟩ <;> simp only [parserStep, h1, h2, hk, ↓reduceIte, stateBounded] <;>
+          first | exact hm | (intro x hx; cases hx))
+
+/-- non-vacuity / example: running status, a real-time byte inside a message, a foreign-channel message and a
+system-exclusive block; the note ends up as 61 with the gate high -/
+example : (([0x91, 60, 0xF8, 100, 61, 0xFE, 90, 0x92, 70, 70, 0xF0, 1, 2, 3, 0xF7, 5, 5]).foldl Midi.parse (Midi.new 1)).noteNum = 61 := by
+  decide
+
 end C06
